@@ -4,6 +4,7 @@ namespace SdnsVerif.Gen.C04
 def alias_soamin60_s : Nat := 60
 def cut_max_ttl_expire600 : Nat := 600000000000
 def dns64_no_soa_ceiling_s : Nat := 600
+def ecs_cap_under_fallback_ns : Nat := 7000000000
 def hist_cut_max_big_ns : Nat := 86400000000000
 def hist_cut_max_ns : Nat := 7200000000000
 def hist_proof_max_big_ns : Nat := 10800000000000
